@@ -1,23 +1,35 @@
 """Generator "Conj": `is_stabilizer()` flags and Pauli conjugation tables of every gate in
 /repo/src/gates/*.rs  ->  lean/Q1t/Gen/Conj.lean.
 
-Encoding of Pauli operators as in src/stabilizer/pauliop.rs: I=0 Z=1 X=2 Y=3.  A table row is
-(ops, ops', flip): `conjugate` replaces `ops` by `ops'` and returns `Ok(flip)`.
+Output encoding of Pauli operators = the MODEL's (Tableau.P.toBits): I=0 Z=1 X=2 Y=3.  A table row is
+(ops, ops', flip): `conjugate` replaces `ops` by `ops'` and returns `Ok(flip)`.  The source's own
+`PauliOp::to_bits`/`from_bits` (src/stabilizer/pauliop.rs) is read, not assumed: it is only needed to
+interpret tables that are indexed by `to_bits()`.
 
-Recognised shapes of `fn conjugate` (whitespace-insensitive, after comment stripping); anything else
-raises ValueError, the check then reports the broken tie:
+What is extracted is the CONTENT (for every input operator / pair: output and sign; whether the arity
+is checked), by a tolerant reading of `fn conjugate` (whitespace, comments, names of local bindings,
+order of the arms, or-patterns are irrelevant):
 
-  match1  check_nr_bits; let (op, phase) = match ops[0] { PauliOp::A => (PauliOp::B, bool), .. }; ops[0] = op; Ok(phase)
-  match2  check_nr_bits; let (phase, op0, op1) = match (ops[0], ops[1]) { (A, B) => (bool, C, D), .. };
-          ops[0] = op0; ops[1] = op1; Ok(phase)
+  match   [check;] let (a, b) = match ops[0] { PauliOp::A => (PauliOp::B, bool), .. }; ops[0] = a; Ok(b)
+          [check;] let (s, a, b) = match (ops[0], ops[1]) { (A, B) => (bool, C, D), .. }; ops[0] = a; ops[1] = b; Ok(s)
+          (tuple components in any order, found by which one is returned / stored)
+  table   the same with `TABLE[ops[0].to_bits() as usize]` and a local or module `const TABLE: [(PauliOp, bool); 4]`
+  helper  the same with the match / table inside a private `fn helper(op0, op1)` called as `Self::helper(ops[0], ops[1])`
+          (one level of inlining)
   const   Ok(false)                                   (no arity check, ops untouched)
-  swap    check_nr_bits; ops.swap(0, 1); Ok(false)
-  sign    check_nr_bits; Ok(ops[0] == PauliOp::A || ops[0] == PauliOp::B)      (ops untouched)
+  swap    [check;] ops.swap(0, 1); Ok(false)
+  sign    [check;] Ok(ops[0] == PauliOp::A || ops[0] == PauliOp::B)      (ops untouched)
 
-Combinators (`C<G>`, `Kron`, `Composite`, `Loop`) derive flag and rule from their parts; they are
-listed in `conjCombinators` with the whitespace-free text of their `is_stabilizer` body (absent:
-"default-false").  Gates declared through `declare_controlled!` get their `impl Gate` from
-`declare_controlled_impl_gate!`, which is checked to define neither `is_stabilizer` nor `conjugate`.
+If the static reading of a primitive fails, its table is extracted DYNAMICALLY: harness/src/bin/conjdump.rs calls the real
+`conjugate()` on all 4 / 16 Pauli inputs (the whole domain of the table, so nothing is sampled) and on wrong operand
+counts.  Only if that fails too a ValueError is raised (the check then reports the broken tie).
+
+Combinators (`C<G>`, `Kron`, `Composite`, `Loop`): `conjCombinators` records WHAT their `is_stabilizer` computes as a
+canonical token ("all-subgates-claim", "g0-and-g1-claim", "body-claims", "default-false"), recognised from the equivalent
+source forms (`all(..)`, `!any(!..)`, early-return loop; `a && b`, `if !a { return false; } b`); an unrecognised body raises.
+Gates declared through `declare_controlled!` get their `impl Gate` from `declare_controlled_impl_gate!`, which is checked to
+define neither `is_stabilizer` nor `conjugate`.  The generated file does not mention the syntactic shape, so a refactoring that
+preserves the content leaves it byte-identical.
 """
 import os, re
 import translate as T
@@ -66,53 +78,220 @@ def _bool(s):
 
 P = r"PauliOp::([IZXY])"
 CHECK = r"self\.check_nr_bits\(ops\.len\(\)\)\?;"
+NAMES = "IZXY"
 
 
-def parse_conjugate(name, body):
-    """-> (shape, arity, checks_arity, rows)"""
+def source_encoding(repo):
+    """`PauliOp::to_bits` of the source as {name: bits}; cross-checked with `from_bits`."""
+    src = T.strip_rust_comments(T.read(repo, "src/stabilizer/pauliop.rs"))
+    m = re.search(r"\bfn\s+to_bits\s*\(", src)
+    if not m:
+        raise ValueError("pauliop.rs: fn to_bits not found")
+    b = src.index("{", m.end())
+    body = _nows(src[b:_block(src, b)])
+    enc = {n: int(v) for n, v in re.findall(r"PauliOp::([IZXY])=>(\d+)", body)}
+    if sorted(enc) != sorted(NAMES) or sorted(enc.values()) != [0, 1, 2, 3]:
+        raise ValueError("pauliop.rs: to_bits is not a bijection {I,Z,X,Y} -> 0..3: %r" % enc)
+    m = re.search(r"\bfn\s+from_bits\s*\(", src)
+    if m:
+        b = src.index("{", m.end())
+        fb = _nows(src[b:_block(src, b)])
+        dec = {int(v): n for v, n in re.findall(r"(\d+)=>PauliOp::([IZXY])", fb)}
+        if dec and any(dec.get(v) != n for n, v in enc.items()):
+            raise ValueError("pauliop.rs: from_bits is not the inverse of to_bits: %r vs %r" % (enc, dec))
+    return enc
+
+
+def _const_tables(text):
+    """`const NAME: [(PauliOp, bool); 4] = [..];` declarations in whitespace-free text -> ({name: entries}, text without them)."""
+    tables = {}
+
+    def take(m):
+        ents = re.findall(r"\(%s,(true|false)\)" % P, m.group(3))
+        if len(ents) != int(m.group(2)):
+            raise ValueError("const %s: %s entries announced, %d read" % (m.group(1), m.group(2), len(ents)))
+        tables[m.group(1)] = [(n, _bool(f)) for n, f in ents]
+        return ""
+    rest = re.sub(r"(?:const|static)(\w+):\[\(PauliOp,bool\);(\d+)\]=\[([^\]]*)\];", take, text)
+    return tables, rest
+
+
+def _inline_helper(b, impl_src):
+    """One level of inlining: `Self::f(ops[0], ..)` / `self.f(..)` / `f(..)` whose body is a single expression."""
+    m = re.search(r"=(?:Self::|self\.)?(\w+)\((ops\[0\](?:,ops\[1\])?)\);", b)
+    if not m or m.group(1) in ("match",):
+        return b
+    fname, args = m.group(1), m.group(2).split(",")
+    fm = re.search(r"\bfn\s+%s\s*\(([^)]*)\)[^{]*" % fname, impl_src)
+    if not fm:
+        return b
+    params = [q.split(":")[0].strip() for q in fm.group(1).split(",") if q.strip() and q.strip() not in ("&self", "self")]
+    if len(params) != len(args):
+        return b
+    st = impl_src.index("{", fm.end() - 1)
+    body = _nows(impl_src[st + 1:_block(impl_src, st) - 1])
+    for q, a in zip(params, args):
+        body = re.sub(r"(?<![\w.])%s(?![\w(])" % re.escape(q), a, body)
+    return b[:m.start()] + "=" + body + ";" + b[m.end():]
+
+
+def _arms(text, nkeys):
+    """match arms `pat | pat => (..)` -> list of (list of key tuples, list of value tokens)."""
+    out = []
+    for am in re.finditer(r"((?:\(?%s(?:,%s)?\)?\|?)+)=>\(([^()]*)\)" % (P, P), text):
+        keys = []
+        for alt in am.group(1).split("|"):
+            ks = re.findall(P, alt)
+            if len(ks) != nkeys:
+                raise ValueError("match arm with %d operators where %d expected: %r" % (len(ks), nkeys, alt))
+            keys.append(tuple(ks))
+        out.append((keys, am.group(am.lastindex).split(",")))
+    return out
+
+
+def parse_conjugate(name, body, file_src, enc):
+    """-> (shape, arity, checks_arity, rows); rows in the model encoding OPS."""
     b = _nows(body)
-    if b == "Ok(false)":
+    tables, b = _const_tables(b)
+    mtables, _ = _const_tables(_nows(file_src))
+    for k, v in mtables.items():
+        tables.setdefault(k, v)
+    b = _inline_helper(b, file_src)
+    t2, b = _const_tables(b)
+    tables.update(t2)
+    checks = re.search(CHECK, b) is not None
+    core = re.sub(CHECK, "", b)
+    if core == "Ok(false)":
         # ops untouched whatever their number
-        return "const", 1, False, [([a], [a], False) for a in range(4)]
-    m = re.fullmatch(CHECK + r"ops\.swap\(0,1\);Ok\(false\)", b)
-    if m:
-        return "swap", 2, True, [([a, c], [c, a], False) for a in range(4) for c in range(4)]
-    m = re.fullmatch(CHECK + r"Ok\(ops\[0\]==%s\|\|ops\[0\]==%s\)" % (P, P), b)
-    if m:
-        fl = {OPS[m.group(1)], OPS[m.group(2)]}
-        return "sign", 1, True, [([a], [a], a in fl) for a in range(4)]
-    m = re.fullmatch(CHECK + r"let\(op,phase\)=matchops\[0\]\{(.*)\};ops\[0\]=op;Ok\(phase\)", b)
-    if m:
+        return "const", 1, checks, [([a], [a], False) for a in range(4)]
+    if re.fullmatch(r"ops\.swap\((0,1|1,0)\);Ok\(false\)", core):
+        return "swap", 2, checks, [([a, c], [c, a], False) for a in range(4) for c in range(4)]
+    m = re.fullmatch(r"Ok\((.*)\)", core)
+    if m and re.fullmatch(r"(?:ops\[0\]==%s(?:\|\|)?)+" % P, m.group(1)):
+        fl = {OPS[x] for x in re.findall(P, m.group(1))}
+        return "sign", 1, checks, [([a], [a], a in fl) for a in range(4)]
+    # one qubit: let (x, y) = <match | TABLE[..]>; ops[0] = x; Ok(y)
+    m = re.fullmatch(r"let\((\w+),(\w+)\)=(.*);ops\[0\]=(\w+);Ok\((\w+)\)", core)
+    if m and {m.group(4), m.group(5)} == {m.group(1), m.group(2)}:
+        iop = 0 if m.group(4) == m.group(1) else 1
+        rhs = m.group(3)
         rows = {}
-        arms = [a for a in m.group(1).split("),") if a]
-        for arm in arms:
-            am = re.fullmatch(r"%s=>\(%s,(true|false)\)?,?" % (P, P), arm)
-            if not am:
-                raise ValueError("%s::conjugate: unrecognised match arm %r" % (name, arm))
-            k = OPS[am.group(1)]
-            if k in rows:
-                raise ValueError("%s::conjugate: duplicate arm for %s" % (name, am.group(1)))
-            rows[k] = ([k], [OPS[am.group(2)]], _bool(am.group(3)))
-        if sorted(rows) != [0, 1, 2, 3]:
-            raise ValueError("%s::conjugate: match does not cover the 4 operators" % name)
-        return "match1", 1, True, [rows[k] for k in range(4)]
-    m = re.fullmatch(CHECK + r"let\(phase,op0,op1\)=match\(ops\[0\],ops\[1\]\)\{(.*)\};ops\[0\]=op0;ops\[1\]=op1;Ok\(phase\)", b)
+        tm = re.fullmatch(r"(\w+)\[ops\[0\]\.to_bits\(\)asusize\]", rhs)
+        if tm:
+            if tm.group(1) not in tables or len(tables[tm.group(1)]) != 4:
+                raise ValueError("%s::conjugate: table %s not found" % (name, tm.group(1)))
+            dec = {v: n for n, v in enc.items()}
+            for idx, ent in enumerate(tables[tm.group(1)]):
+                rows[dec[idx]] = ent
+            shape = "table"
+        else:
+            mm = re.fullmatch(r"matchops\[0\]\{(.*)\}", rhs)
+            if not mm:
+                raise ValueError("%s::conjugate: unrecognised right-hand side %s" % (name, rhs[:120]))
+            for keys, vals in _arms(mm.group(1), 1):
+                if len(vals) != 2:
+                    raise ValueError("%s::conjugate: arm value %r" % (name, vals))
+                o = re.fullmatch(P, vals[iop])
+                if not o:
+                    raise ValueError("%s::conjugate: arm value %r" % (name, vals))
+                for (k,) in keys:
+                    if k in rows:
+                        raise ValueError("%s::conjugate: duplicate arm for %s" % (name, k))
+                    rows[k] = (o.group(1), _bool(vals[1 - iop]))
+            shape = "match"
+        if sorted(rows) != sorted(NAMES):
+            raise ValueError("%s::conjugate: table does not cover the 4 operators" % name)
+        return shape, 1, checks, [([OPS[k]], [OPS[rows[k][0]]], rows[k][1]) for k in "IZXY"]
+    # two qubits: let (x, y, z) = match (ops[0], ops[1]) {..}; ops[0] = ..; ops[1] = ..; Ok(..)
+    m = re.fullmatch(r"let\((\w+),(\w+),(\w+)\)=match\(ops\[0\],ops\[1\]\)\{(.*)\};ops\[0\]=(\w+);ops\[1\]=(\w+);Ok\((\w+)\)", core)
     if m:
+        binds = [m.group(1), m.group(2), m.group(3)]
+        use = [m.group(5), m.group(6), m.group(7)]
+        if sorted(binds) != sorted(use):
+            raise ValueError("%s::conjugate: bindings %r used as %r" % (name, binds, use))
+        i0, i1, isg = binds.index(use[0]), binds.index(use[1]), binds.index(use[2])
         rows = {}
-        arms = [a for a in m.group(1).split("),") if a]
-        for arm in arms:
-            am = re.fullmatch(r"\(%s,%s\)=>\((true|false),%s,%s\)?,?" % (P, P, P, P), arm)
-            if not am:
-                raise ValueError("%s::conjugate: unrecognised match arm %r" % (name, arm))
-            k = (OPS[am.group(1)], OPS[am.group(2)])
-            if k in rows:
-                raise ValueError("%s::conjugate: duplicate arm for %s" % (name, k))
-            rows[k] = (list(k), [OPS[am.group(4)], OPS[am.group(5)]], _bool(am.group(3)))
-        keys = [(a, c) for a in range(4) for c in range(4)]
-        if sorted(rows) != keys:
+        for keys, vals in _arms(m.group(4), 2):
+            if len(vals) != 3:
+                raise ValueError("%s::conjugate: arm value %r" % (name, vals))
+            o0, o1 = re.fullmatch(P, vals[i0]), re.fullmatch(P, vals[i1])
+            if not o0 or not o1:
+                raise ValueError("%s::conjugate: arm value %r" % (name, vals))
+            for k in keys:
+                if k in rows:
+                    raise ValueError("%s::conjugate: duplicate arm for %s" % (name, k))
+                rows[k] = ([OPS[k[0]], OPS[k[1]]], [OPS[o0.group(1)], OPS[o1.group(1)]], _bool(vals[isg]))
+        keys = [(a, c) for a in "IZXY" for c in "IZXY"]
+        if sorted(rows) != sorted(keys):
             raise ValueError("%s::conjugate: match does not cover the 16 operator pairs" % name)
-        return "match2", 2, True, [rows[k] for k in keys]
+        return "match", 2, checks, [rows[k] for k in keys]
     raise ValueError("%s::conjugate: unrecognised shape: %s" % (name, b[:200]))
+
+
+def parse_flag(name, stab):
+    t = _nows(stab)
+    if t in ("true", "false"):
+        return t == "true"
+    raise ValueError("%s::is_stabilizer: expected a bool literal, got %s" % (name, t[:80]))
+
+
+def combinator_token(name, stab):
+    """what `is_stabilizer` of a combinator computes, as a canonical token"""
+    if stab is None:
+        return "default-false"
+    t = _nows(stab)
+    call = r"(\w+)\.gate\.is_stabilizer\(\)"
+    forms_all = [r"self\.ops\.iter\(\)\.all\(\|(\w+)\|\1\.gate\.is_stabilizer\(\)\)",
+                 r"!self\.ops\.iter\(\)\.any\(\|(\w+)\|!\1\.gate\.is_stabilizer\(\)\)",
+                 r"for(\w+)inself\.ops\.iter\(\)\{if!\1\.gate\.is_stabilizer\(\)\{returnfalse;\}\}(?:return)?true;?",
+                 r"for(\w+)in&self\.ops\{if!\1\.gate\.is_stabilizer\(\)\{returnfalse;\}\}(?:return)?true;?"]
+    if any(re.fullmatch(f, t) for f in forms_all):
+        return "all-subgates-claim"
+    forms_and = [r"self\.g0\.is_stabilizer\(\)&&self\.g1\.is_stabilizer\(\)",
+                 r"if!self\.g0\.is_stabilizer\(\)\{returnfalse;\}self\.g1\.is_stabilizer\(\)",
+                 r"ifself\.g0\.is_stabilizer\(\)\{self\.g1\.is_stabilizer\(\)\}else\{false\}"]
+    if any(re.fullmatch(f, t) for f in forms_and):
+        return "g0-and-g1-claim"
+    if t == "self.body.is_stabilizer()":
+        return "body-claims"
+    raise ValueError("%s::is_stabilizer: unrecognised shape: %s" % (name, t[:200]))
+
+
+def dynamic_tables(repo, names):
+    """conjugate() of the named gates on the whole domain, through harness/src/bin/conjdump.rs.
+    -> {name: (arity, flag, checks_arity, rows)} in the model encoding."""
+    import subprocess
+    if os.path.realpath(repo) != "/repo":
+        raise ValueError("dynamic extraction needs the harness, which is built against /repo (got %s)" % repo)
+    root = os.path.dirname(os.path.dirname(os.path.dirname(os.path.abspath(__file__))))
+    env = dict(os.environ, CARGO_NET_OFFLINE="true", CARGO_TARGET_DIR=os.path.join(root, ".cache", "cargo-target"))
+    r = subprocess.run(["cargo", "build", "--bin", "conjdump"], cwd=os.path.join(root, "harness"), env=env,
+                       capture_output=True, text=True, timeout=1800)
+    if r.returncode != 0:
+        raise ValueError("dynamic extraction: harness does not build: %s" % r.stderr[-300:])
+    r = subprocess.run([os.path.join(env["CARGO_TARGET_DIR"], "debug", "conjdump")] + list(names),
+                       capture_output=True, text=True, timeout=600)
+    if r.returncode != 0:
+        raise ValueError("dynamic extraction: conjdump failed: %s" % (r.stderr[-300:] or r.stdout[-300:]))
+    out = {}
+    for line in r.stdout.split("\n"):
+        w = line.split()
+        if not w:
+            continue
+        if w[0] == "gate":            # gate NAME arity flag checks
+            out[w[1]] = [int(w[2]), w[3] == "true", w[4] == "true", []]
+        elif w[0] == "row":           # row NAME IN OUT flip     (operator names, e.g. XZ YY 1)
+            out[w[1]][3].append(([OPS[c] for c in w[2]], [OPS[c] for c in w[3]], w[4] == "1"))
+        elif w[0] == "bad":
+            raise ValueError("dynamic extraction: %s" % line)
+    for n in names:
+        if n not in out:
+            raise ValueError("dynamic extraction: no answer for %s" % n)
+        ar, flag, checks, rows = out[n]
+        if flag and len(rows) != 4 ** ar:
+            raise ValueError("dynamic extraction: %s claims but answered %d of %d strings" % (n, len(rows), 4 ** ar))
+        rows.sort(key=lambda r: r[0])
+    return {n: tuple(v) for n, v in out.items()}
 
 
 def scan_file(repo, rel):
@@ -123,7 +302,7 @@ def scan_file(repo, rel):
         name = m.group(1)
         b = src.index("{", m.end())
         impl = src[b:_block(src, b)]
-        out.append({"name": name, "file": rel, "impl": impl})
+        out.append({"name": name, "file": rel, "impl": impl, "src": src})
     return out
 
 
@@ -146,7 +325,9 @@ def gen(repo):
     files = sorted(f for f in os.listdir(gdir) if f.endswith(".rs"))
     if not files:
         raise ValueError("no gate files in src/gates")
+    enc = source_encoding(repo)
     entries = []      # (name, arity, flag, rows, shape, file)
+    dyn = []          # primitives whose table could not be read statically
     nocheck = []
     combos = []
     arities = {}
@@ -163,18 +344,23 @@ def gen(repo):
                     raise ValueError("%s: macro-generated impl Gate now defines is_stabilizer/conjugate" % rel)
                 continue
             if name in COMBINATORS:
-                combos.append((name, _nows(stab) if stab is not None else "default-false",
+                combos.append((name, combinator_token(name, stab),
                                "conjugate" if conj is not None else "default-error"))
                 continue
             if stab is None:
                 flag = False
             else:
-                flag = _bool(_nows(stab))
+                flag = parse_flag(name, stab)
             if conj is None:
                 shape, rows, checks = "none", [], True
                 carity = arity
             else:
-                shape, carity, checks, rows = parse_conjugate(name, conj)
+                try:
+                    shape, carity, checks, rows = parse_conjugate(name, conj, g["src"], enc)
+                except ValueError as e:
+                    dyn.append((name, str(e), len(entries), rel))
+                    entries.append(None)
+                    continue
                 if arity is not None and arity != carity:
                     raise ValueError("%s: nr_affected_bits %s but conjugate table of arity %s" % (name, arity, carity))
             if conj is not None and not flag:
@@ -188,6 +374,17 @@ def gen(repo):
             entries.append((name, carity, flag, rows, shape, rel))
             if not checks:
                 nocheck.append(name)
+    if dyn:
+        got = dynamic_tables(repo, [d[0] for d in dyn])
+        for name, why, pos, rel in dyn:
+            ar, flag, checks, rows = got[name]
+            if not flag:
+                raise ValueError("%s defines conjugate but is_stabilizer() is false (%s)" % (name, why))
+            arities[name] = ar
+            entries[pos] = (name, ar, flag, rows, "dynamic", rel)
+            if not checks:
+                nocheck.append(name)
+        nocheck = [e[0] for e in entries if e[0] in nocheck]
     # gates declared with declare_controlled!(Name, base_type, ...)
     csrc = _strip_tests(T.strip_rust_comments(T.read(repo, "src/gates/controlled.rs")))
     decls = re.findall(r"declare_controlled!\(\s*(?:#\[[^\]]*\]\s*)*([A-Za-z0-9_]+)\s*,\s*(?:crate::gates::)?([A-Za-z0-9_]+)", csrc)
@@ -227,16 +424,13 @@ def gen(repo):
                 "def conjTable : List (String × Nat × Bool × List (List Nat × List Nat × Bool)) := [\n")
     items = []
     for name, ar, flag, rows, shape, rel in entries:
-        items.append("  -- %s (%s, shape %s)\n  (\"%s\", %d, %s, [%s])" % (
-            name, rel, shape, name, ar, "true" if flag else "false",
+        items.append("  -- %s (%s)\n  (\"%s\", %d, %s, [%s])" % (
+            name, rel, name, ar, "true" if flag else "false",
             ",\n    ".join(row(r) for r in rows)))
     body.append(",\n".join(items) + "\n]\n\n")
     body.append("/-- gates whose `conjugate` does not call `check_nr_bits` -/\n"
                 "def conjNoArityCheck : List String := [%s]\n\n" % ", ".join('"%s"' % n for n in nocheck))
-    body.append("/-- syntactic shape of each `conjugate` (see tools/gen/conj.py) -/\n"
-                "def conjShape : List (String × String) := [%s]\n\n" % ", ".join(
-                    '("%s", "%s")' % (e[0], e[4]) for e in entries))
-    body.append("/-- combinator gates: (name, text of `is_stabilizer` body, whether `conjugate` is overridden) -/\n"
+    body.append("/-- combinator gates: (name, what `is_stabilizer` computes, whether `conjugate` is overridden) -/\n"
                 "def conjCombinators : List (String × String × String) := [%s]\n" % ", ".join(
                     '("%s", "%s", "%s")' % c for c in combos))
     return T.header("Conj", "src/gates/*.rs (is_stabilizer, conjugate)") + "".join(body) + T.FOOTER
